@@ -6,9 +6,9 @@ def spec():
         'S0': St(internal=[Row('S0', 'E2', None, guard=4, actions=['si0']),
                            Row('S0', 'E2', None, guard=5, actions=['si1'])]),
         'S1': St(internal=[Row('S1', 'E0', None, actions=['si2'])]),
-        # every form of a state-local internal row: guard + action (S0), action only (S1), guard only and bare (S2)
-        'S2': St(internal=[Row('S2', 'E1', None, guard=8),
-                           Row('S2', 'E3', None)]),
+        # the forms of a state-local internal row: guard + action (S0), action only (S1), guard only (S2); a bare one
+        # (no guard, no action) would consume events without any record and is left out
+        'S2': St(internal=[Row('S2', 'E1', None, guard=8)]),
     }, [
         Row('S0', 'E0', 'S1', guard=0, actions=['r0']),          # row
         Row('S0', 'E0', 'S2', guard=1),                          # g_row
